@@ -195,6 +195,15 @@ bool h_named(const std::string &name, Case &c) {
     std::string ta = strip_levels(dump_topology(t, DUMP_GP)), tb = strip_levels(dump_topology(r, DUMP_GP)); std::string df2 = first_diff(ta, tb);
     if (!df2.empty() && df2.find(" Group ") != std::string::npos && df2.find("dont_merge=0) arity=1/0/0/0") != std::string::npos) c.fail("reload_group_merged", "a Group with a single child that the load kept is merged by the reload of the topology's own export: %s", df2.c_str());
     CHECK(c, df2.empty(), "reload_equal", "the reloaded topology differs: %s", df2.c_str()); hwloc_topology_destroy(r); hwloc_topology_destroy(t); return true; }
+  if (name == "F-C05-f") { c.desc("regress/C05/F-C05-f.xml (generated document: Machine > Group(dont_merge) > {NUMA, Group(dont_merge) > L2 > ...}): load, export, reload, under the default and the KEEP_ALL Group filter; every load used to drop the outermost dont_merge Group");
+    std::string path = "/verif/regress/C05/F-C05-f.xml";
+    for (int keepall = 0; keepall < 2; keepall++) { hwloc_topology_t t; hwloc_topology_init(&t); hwloc_topology_set_io_types_filter(t, HWLOC_TYPE_FILTER_KEEP_ALL); if (keepall) hwloc_topology_set_all_types_filter(t, HWLOC_TYPE_FILTER_KEEP_ALL);
+      CHECK(c, hwloc_topology_set_xml(t, path.c_str()) == 0 && hwloc_topology_load(t) == 0, "named_setup", "cannot load %s", path.c_str()); require_wf(c, t, "load");
+      int ng = 0; for (auto o : all_objs(t)) if (o->type == HWLOC_OBJ_GROUP) ng++; CHECK(c, ng == 2, "dont_merge_kept", "the document has two nested Groups with dont_merge=1, the loaded topology (Group filter %s) has %d", keepall ? "KEEP_ALL" : "KEEP_STRUCTURE", ng);
+      std::string X = xml_of(c, t, 0, false); hwloc_topology_t r = reload(c, X, 0, false, false); require_wf(c, r, "reload");
+      std::string df2 = first_diff(strip_levels(dump_topology(t, DUMP_GP)), strip_levels(dump_topology(r, DUMP_GP))); CHECK(c, df2.empty(), "reload_equal", "the reloaded topology differs: %s", df2.c_str());
+      hwloc_topology_destroy(r); hwloc_topology_destroy(t); }
+    return true; }
   if (name == "F-C05-c") {   // stale memattr value exported after a restrict
     c.desc("numa:3 pack:2 core:2 pu:1; custom attribute with one value for initiator PU 0; restrict(all but PU 0); export, reload, re-export");
     hwloc_topology_t t; hwloc_topology_init(&t); hwloc_topology_set_synthetic(t, "numa:3 pack:2 core:2 pu:1"); hwloc_topology_load(t);
